@@ -18,11 +18,29 @@ def main():
     from decaylanguage.modeling.amplitudechain import AmplitudeChain
     from decaylanguage.modeling.ampgen2goofit import ampgen2goofit, ampgen2goofitpy
     out = []
-    for cls, path in calls:
+    for call in calls:
+        cls, path = call[0], call[1]
+        how = call[2] if len(call) > 2 else "file"
         try:
             buf = io.StringIO()
             with redirect_stdout(buf):
-                if cls == "base":
+                if how == "text":
+                    # the options handed over as a string (read_ampgen(text=...)): the result of the read, the particles
+                    # the class says this read has seen and, for the converting classes, the declarations they make
+                    from decaylanguage.modeling.goofit import GooFitChain, GooFitPyChain
+                    Cls = {"base": AmplitudeChain, "cpp": GooFitChain, "py": GooFitPyChain}[cls]
+                    with open(path, encoding="utf_8") as fh:
+                        r = Cls.read_ampgen(text=fh.read())
+                    lines, states = r[0], r[-1]
+                    pars, consts = (r[1], r[2]) if cls == "base" else (Cls.pars, Cls.consts)
+                    res = {"kind": "read",
+                           "lines": [[str(l), repr(complex(l.amp)), bool(l.fix), l.spinfactor, l.lineshape,
+                                      [[str(d), repr(complex(d.amp))] for d in l.daughters]] for l in lines],
+                           "pars": json.loads(pars.to_json(orient="split")), "consts": json.loads(consts.to_json(orient="split")),
+                           "states": [str(s) for s in states],
+                           "particles": sorted(str(x) for x in Cls.all_particles),
+                           "intro": sorted(Cls.make_intro(states).splitlines()) if cls != "base" else []}
+                elif cls == "base":
                     lines, pars, consts, states = AmplitudeChain.read_ampgen(path)
                     res = {"kind": "read",
                            "lines": [[str(l), repr(complex(l.amp)), bool(l.fix), l.spinfactor, l.lineshape,
